@@ -9,6 +9,7 @@
 import BS.Generated.Core
 import BS.Impl.Data
 import BS.Impl.World
+import BS.Impl.CatchUpPlan
 
 namespace BS.Gen
 open BS.Impl
@@ -741,5 +742,129 @@ theorem read_tie (p : Nat) (chunks : List Bytes) (l1 l2 : Bytes) (h1 : l1.length
   | 2 => exact read_tie_p2 chunks l1 l2 h1 h2 hc
   | 3 => exact read_tie_p3 chunks l1 l2 h1 h2 hc
   | p + 4 => exact read_tie_ge4 p chunks l1 l2 h1 h2
+
+end BS.Gen
+
+namespace BS.Gen
+open BS.Impl
+
+/-! ### `repair::add_missing_data` (the catch-up of a cache on open) -/
+
+/-- **the model's `DownSampledData::open` + catch-up is: open the cache's data, then carry out the plan** -/
+theorem cacheOpen_follows_plan (dir : Dir) (B : Nat) (src : DataSess) (cb : Option Bool) :
+    cacheOpen dir B src cb =
+      match fileOpenExisting (dir.cache B).data with
+      | .error f => (dir, .error f)
+      | .ok (off, _) =>
+        match dataOpenExisting (dir.cache B) src.p off cb with
+        | (st, .error f) => (dir.setCache B st, .error f)
+        | (st, .ok d) =>
+          match catchUpPlan src d B with
+          | .error f => (dir.setCache B st, .error f)
+          | .ok acts => applyPlan (dir.setCache B st) B src cb st d acts := by
+  unfold cacheOpen
+  dsimp only
+  cases h1 : fileOpenExisting (dir.cache B).data with
+  | error f => rfl
+  | ok r =>
+    obtain ⟨off, x⟩ := r
+    simp only
+    cases h2 : dataOpenExisting (dir.cache B) src.p off cb with
+    | mk st rd =>
+      cases rd with
+      | error f => rfl
+      | ok d =>
+        simp only [catchUpPlan]
+        cases h3 : dataLenLines d with
+        | error f => cases dataLenLines src <;> rfl
+        | ok clen =>
+          cases h4 : dataLenLines src with
+          | error f => rfl
+          | ok slen =>
+            simp only
+            by_cases ha : (decide (clen * B ≥ slen + B) || (decide (clen * B > slen) && cacheNewer d.lastTime src.lastTime)) = true
+            · simp only [ha, if_true]
+              by_cases hs : 0 ≥ slen
+              · simp [hs, applyPlan]
+              · simp only [hs, if_false]
+                cases lineOffset src 0 with
+                | none => simp [applyPlan]
+                | some r => obtain ⟨start, full⟩ := r; simp [applyPlan]
+            · simp only [ha, if_false, Bool.false_eq_true]
+              by_cases hs : clen * B ≥ slen
+              · simp [hs, applyPlan]
+              · simp only [hs, if_false]
+                cases lineOffset src (clen * B) with
+                | none => simp [applyPlan]
+                | some r => obtain ⟨start, full⟩ := r; simp [applyPlan]
+
+theorem dataLenLines_error (x : DataSess) (f : Fault) (h : dataLenLines x = .error f) : f = .panic := by
+  unfold dataLenLines at h
+  dsimp only at h
+  split at h
+  · cases h; rfl
+  · cases h
+
+theorem optLt_eq_cacheNewer (c t : Option Nat) : Rs.optLt t c = cacheNewer c t := by
+  cases c <;> cases t <;> simp [Rs.optLt, cacheNewer]
+
+/-- **`add_missing_data` as translated from the current source computes exactly the plan** the model's
+`cacheOpen` carries out (`cacheOpen_follows_plan`): when to empty the cache, how many lines to skip,
+where to resume replaying the source -/
+theorem add_missing_data_tie (src d : DataSess) (B sk : Nat)
+    (hps : src.p < 2^60) (hpd : d.p < 2^60)
+    (hns : src.entries.length * Impl.lpm src.p < 2^64) (hnd : d.entries.length * Impl.lpm d.p < 2^64)
+    (hbig : ∀ clen slen, dataLenLines d = .ok clen → dataLenLines src = .ok slen → clen * B < 2^64 ∧ slen + B < 2^64)
+    (hlp : ∀ slen n, dataLenLines src = .ok slen → n < slen → LinePosFits src.p n 0 src.entries) :
+    add_missing_data src.view ⟨B, d.view, sk⟩ = (catchUpPlan src d B).map (fun acts => (acts, ())) := by
+  unfold add_missing_data catchUpPlan
+  simp only [data_len_tie src hps hns, data_len_tie d hpd hnd]
+  cases hs : dataLenLines src with
+  | error f =>
+    have := dataLenLines_error src f hs; subst this
+    cases hd : dataLenLines d with
+    | error g => have := dataLenLines_error d g hd; subst this; rfl
+    | ok clen => rfl
+  | ok slen =>
+    cases hd : dataLenLines d with
+    | error g => rfl
+    | ok clen =>
+      obtain ⟨hm, ha⟩ := hbig clen slen hd hs
+      have hsm : Rs.satMul clen B = clen * B := by simp only [Rs.satMul]; omega
+      have hsa : Rs.satAdd slen B = slen + B := by simp only [Rs.satAdd]; omega
+      simp only [bind_ok, hsm, hsa, optLt_eq_cacheNewer, DataSess.view]
+      by_cases hah : (decide (clen * B ≥ slen + B) || (decide (clen * B > slen) && cacheNewer d.lastTime src.lastTime)) = true
+      · have hcond : (clen * B ≥ slen + B ∨ decide (clen * B > slen ∧ cacheNewer d.lastTime src.lastTime = true) = true) := by
+          simp only [Bool.or_eq_true, Bool.and_eq_true, decide_eq_true_eq] at hah ⊢
+          exact hah
+        rw [if_pos hcond]
+        simp only [hah, if_true]
+        by_cases h0 : 0 ≥ slen
+        · have : slen = 0 := by omega
+          subst this
+          simp [Rs.sub, Except.map]
+        · simp only [h0, if_false]
+          have hfit := hlp slen 0 hs (by omega)
+          have := data_line_pos_tie src 0 hfit hns
+          simp only [DataSess.view] at this
+          simp only [this, hs, bind_ok, h0, if_false, pure_eq_ok]
+          cases lineOffset src 0 with
+          | none => simp [Except.map]
+          | some r => obtain ⟨start, full⟩ := r; simp [Except.map]
+      · have hcond : ¬ (clen * B ≥ slen + B ∨ decide (clen * B > slen ∧ cacheNewer d.lastTime src.lastTime = true) = true) := by
+          simp only [Bool.or_eq_true, Bool.and_eq_true, decide_eq_true_eq] at hah ⊢
+          exact hah
+        rw [if_neg hcond]
+        simp only [hah, if_false, Bool.false_eq_true]
+        by_cases h0 : clen * B ≥ slen
+        · simp [h0, Rs.sub, Except.map]
+        · simp only [h0, if_false]
+          have hfit := hlp slen (clen * B) hs (by omega)
+          have := data_line_pos_tie src (clen * B) hfit hns
+          simp only [DataSess.view] at this
+          simp only [this, hs, bind_ok, h0, if_false, pure_eq_ok]
+          cases lineOffset src (clen * B) with
+          | none => simp [Except.map]
+          | some r => obtain ⟨start, full⟩ := r; simp [Except.map]
 
 end BS.Gen
